@@ -152,6 +152,23 @@ def gen_history(seed, universe, cfg):
                 acts.append(["drop", cid])
             threads.append(acts)
 
+    # two requests on unrelated contexts whose prints run concurrently in two threads of this process, with the
+    # simulator deciding the interleaving at line granularity inside utils.format_cpp (the only I/O seam they share)
+    if cfg.get("races") and kn.random() < cfg["races"]:
+        cands = [t for t in cfg["targets"] if t in ("cpp", "xla_client") and t in by_target]
+        if cands:
+            acts, rids = [], []
+            for _ in range(2):
+                t = rq.choice(cands)
+                r = rq.choice(by_target[t])
+                cid, rid = new_cid(), new_rid()
+                ctx_act = ["ctx", cid, t] + ([r["params"], "ctor"] if r.get("params") else [])
+                acts += [ctx_act, ["trace", rid, cid, r["target"], r["func"], r["sig"]], ["expand", rid], ["simplify", rid]]
+                rids.append(rid)
+            p_sw = rq.choice([0.1, 0.3, 0.6])
+            acts.append(["race", rids, [(sch.randrange(2) if sch.random() < p_sw else -1) for _ in range(400)]])
+            threads.append(acts)
+
     # interleave
     history = []
     if granularity == "request":
@@ -181,6 +198,11 @@ def gen_history(seed, universe, cfg):
     if cfg.get("allow_env") and kn.random() < 0.5:
         pos = kn.randrange(len(out) + 1)
         out.insert(pos, ["env", kn.choice(cfg["allow_env"])])
+    if cfg.get("env_windows") and kn.random() < 0.5:
+        # a formatter fault that comes and goes: what is requested after it is gone must not remember it
+        pos = kn.randrange(len(out) + 1)
+        out.insert(pos, ["env", kn.choice(cfg["env_windows"])])
+        out.insert(min(len(out), pos + 1 + kn.randint(1, 8)), ["env", "reset"])
     return out
 
 
@@ -404,6 +426,12 @@ class Executor:
             gc.collect()
             self.bump(self.stats, "contexts_dropped")
             return
+        if op == "env" and a[1] == "reset":
+            self.env.reset()
+            self.bump(self.stats, "env_fault_window_closed")
+            return
+        if op == "race":
+            return self.race(a[1], a[2])
         if op == "env":
             self.env.apply(a[1])
             self.bump(self.faults, "env:" + a[1])
@@ -529,6 +557,78 @@ class Executor:
                 self.outputs.append(rec)
         else:
             raise KeyError(op)
+
+    def race(self, rids, schedule):
+        """Print two simplified requests concurrently from two real threads; exactly one thread runs at a time and
+        the schedule decides who continues at every line event inside utils.format_cpp."""
+        import threading
+
+        from ..fpusim.engine import Scheduler
+
+        reqs = [self.reqs.get(r) for r in rids]
+        if any(r is None or r["stage"] not in ("simplified", "printed") for r in reqs):
+            self.bump(self.stats, "race_skipped_a_request_was_not_ready")
+            return
+        fa = self.fa
+        sched = Scheduler(2, schedule, self.log)
+        texts, errors = [None, None], [None, None]
+        marker = os.path.join("functional_algorithms", "utils.py")
+
+        def tracer_for(tid):
+            def local(frame, event, arg):
+                if event == "line":
+                    sched.point(tid, "format_cpp")
+                return local
+
+            def glob(frame, event, arg):
+                if frame.f_code.co_name == "format_cpp" and frame.f_code.co_filename.endswith(marker):
+                    return local
+                return None
+
+            return glob
+
+        def body(tid):
+            sched.wait_turn(tid)
+            sys.settrace(tracer_for(tid))
+            try:
+                tm = getattr(fa.targets, reqs[tid]["target"])
+                texts[tid] = reqs[tid]["g"].tostring(tm, debug=0)
+            except BaseException as e:
+                errors[tid] = e
+            finally:
+                sys.settrace(None)
+                sched.finish(tid)
+
+        ths = [threading.Thread(target=body, args=(t,), daemon=True) for t in range(2)]
+        for th in ths:
+            th.start()
+        sched.start()
+        sched.done.acquire()
+        for th in ths:
+            th.join()
+        self.bump(self.probes, "two_prints_raced_in_two_threads")
+        self.bump(self.stats, "race_thread_switches_inside_format_cpp", sched.switches)
+        for tid, req in enumerate(reqs):
+            if errors[tid] is not None:
+                if isinstance(errors[tid], OSError) and self.env.active is not None:
+                    self.bump(self.faults, "io_error_under_env_fault:" + type(errors[tid]).__name__)
+                else:
+                    self.bump(self.stats, "raced_print_failed:" + type(errors[tid]).__name__)
+                continue
+            text = texts[tid]
+            req["stage"] = "printed"
+            req["prints"] = req.get("prints", 0) + 1
+            rec = dict(key=req_key(req, 0) + ":raced", tag="bg", rid=req["rid"], cid=req["cid"], prior=req["prior"],
+                       rep=req["prints"], pos=self.pos, sha=hashlib.sha256(text.encode()).hexdigest(), env=self.env.active,
+                       after_abort=False, tmp_counter=None, target=req["target"], debug=0, ctx_had_failure=False)
+            if req["func"].startswith("gen:"):
+                rec["req"] = dict(target=req["target"], func=req["func"], sig=req["sig"], params=req.get("params"))
+            self.log.ev("text", rec["key"], rec["sha"][:16])
+            if self.on_text is not None:
+                self.on_text(rec, text, req)
+            else:
+                rec["text"] = text
+            self.outputs.append(rec)
 
     def guarded(self, req, stage, fn, fault):
         try:
